@@ -360,7 +360,7 @@ def entries():
 
 def run(res, tier, seed, search):
     quick = tier == "quick"
-    n = 4 if quick else 24
+    n = 4 if quick else 40
     if search:
         n *= 3
     exh = 4 if quick else 5
